@@ -134,6 +134,16 @@ CHECKS["C19"] = dict(
          "independently from the surviving files.",
     note="Expectation computed by harness/refcodec.c; same options passed to ldb_repair as at creation.")
 
+CHECKS["C20"] = dict(
+    cat="exploration", engine="lifemon+iomon", design="3/C20",
+    technique="runtime monitoring: generated lifecycle sequences with model/byte-level oracles (locks incl. another process, backups in gated states, destroy, comparator mismatch, concurrent backup) (+ASan pass)",
+    text="Random open/close/second-open/failed-open/copy/destroy sequences (aliases via relative paths, symlinks, a forked "
+         "child and an unrelated process), backups taken in memtable-only / immutable-pending / multi-level / mid-compaction "
+         "(gated) states and concurrently with writers, destroy on directories seeded with foreign files, every comparator "
+         "pair; oracles: return codes, copy == model at the call (whole batches inside the real-time window), byte-identical "
+         "foreign/data files.",
+    note="close() concurrent with other calls on the same handle is outside the contract and not driven.")
+
 NOT_YET = "check under construction in this session (see DESIGN.md section 3); not claimed until its monitor is committed"
 
 
